@@ -401,4 +401,20 @@ def Acc.inside (base len : Nat) (a : Acc) : Bool := decide (base ≤ a.addr ∧ 
 def trapCodeM (k : String) : Nat := if k = "oob-memory" then codeMemOOB else trapCode k
 def trapKindM (c : Nat) : String := if c = codeMemOOB then "oob-memory" else trapKind c
 
+/-- the SSA outcome `o` refines the outcome `sp` of the reference semantics (outcome and final linear memory): the
+same result values, or the trap code of the same trap kind; no calls; and the final flat memory still embeds the
+final linear memory (so its part `[base, base+len)` IS the specification's final memory, and the module context is
+intact).  The reference semantics does not run out of fuel. -/
+def RefinesM (mc base : Nat) (sp : Wz.Spec.Wasm.Outcome × ByteArray) (o : Outcome) : Prop :=
+  match sp.1 with
+  | .values vs => ∃ mem', o = .values vs mem' [] ∧ Emb mc base sp.2 mem'
+  | .trap k => ∃ mem', o = .trap (trapCodeM k) mem' [] ∧ Emb mc base sp.2 mem' ∧
+      (k = "oob-memory" ∨ k = "div0" ∨ k = "overflow")
+  | .exhausted => False
+
+/-- every access is inside the linear memory or is one of the two reads of the module context (a store is always
+inside: `isCtxRead` is false for stores) -/
+def Confined (mc base len : Nat) (log : List Acc) : Prop :=
+  ∀ a ∈ log, a.inside base len = true ∨ a.isCtxRead mc = true
+
 end Wz.Model.FrontendMem
